@@ -15,11 +15,15 @@ REPO = os.path.realpath(os.environ.get('VERIF_REPO', '/repo'))
 
 EXIT_OK, EXIT_VIOLATION, EXIT_HARNESS = 0, 1, 2
 
-CASE_CPU_LIMIT = 120        # CPU seconds for one case before it is recorded as clause 'hang'
+CASE_CPU_LIMIT = 60        # CPU seconds for one case before it is recorded as clause 'hang'
 
 
 class HarnessError(Exception):
     pass
+
+
+class StopShard(BaseException):
+    """raised after repeated hangs: the shard stops searching and reports what it has"""
 
 
 class HangError(BaseException):
@@ -201,6 +205,7 @@ class Collector:
         except HangError:
             res = Result(key=case, nontrivial=False)
             res.fail('hang', 'cpu>%ds' % limit, 'case did not finish within the CPU limit of %d s: %r' % (limit, case if len(repr(case)) < 300 else repr(case)[:300]))
+            self.hangs = getattr(self, 'hangs', 0) + 1
         finally:
             signal.setitimer(signal.ITIMER_VIRTUAL, 0)
         out.evaluations += 1
@@ -217,6 +222,8 @@ class Collector:
             if fid:
                 out.known_seen[fid] += 1
             out.add_failure(leg.name, case, f, fid)
+        if getattr(self, 'hangs', 0) >= 2:
+            raise StopShard()
         return res
 
 
@@ -273,6 +280,8 @@ def shard_main(prop_name, legname, tier, seed, shard, nshards, n, conn):
             run_enum_leg(prop, leg, tier, seed, shard, nshards, collector)
         else:
             leg.run(tier=tier, seed=seed, shard=shard, nshards=nshards, n=n, collector=collector, leg=leg)
+    except StopShard:
+        pass
     except BaseException as e:      # harness error (includes hypothesis health checks)
         out.error = ''.join(traceback.format_exception(type(e), e, e.__traceback__))[-4000:]
     payload = {
@@ -644,7 +653,7 @@ def write_evidence(prop, tier, seed, total, leg_stats, violations, known, known_
         'coverage': cov, 'assumptions': list(getattr(prop, 'ASSUMPTIONS', [])),
         'wall_s': round(wall, 2), 'violations': len(violations),
     }
-    d = os.path.join(VERIF, 'evidence')
+    d = os.environ.get('VERIF_EVIDENCE_DIR') or os.path.join(VERIF, 'evidence')     # the mutant self-test redirects its evidence
     os.makedirs(d, exist_ok=True)
     tmp = os.path.join(d, prop.ID + '.json.tmp')
     with open(tmp, 'w') as f:
